@@ -39,6 +39,7 @@ MAX = 21 * 10 ** 14
 DENS = ['Y', 'Z', 'E', 'P', 'T', 'G', 'M', 'k', 'h', 'da', '', 'd', 'c', 'm', 'µ', 'n', 'sat', 'fin', 'msat', 'µsat']
 PARSE_APIS = ['v2s', 'value', 'v2s_net', 'value_net', 'v2s_net_code']
 F_FLOAT = 'C17-float-scaling-off-by-one'
+F_FMT = 'C17-format-side-float-noise'
 F_DA = 'C17-deca-prefix-unparseable'
 F_TERA = 'C17-tera-prefix-read-as-testnet-code'
 F_SHARED = 'C17-shared-currency-code-network-refused'
@@ -213,11 +214,12 @@ def check_format(ctx, case):
         raise Discrepancy('format.number', 'formatted text %r is not a decimal number (%r)' % (text, e), case)
     if decimals is not None and '.' in parts[0] and len(parts[0].split('.')[1]) != decimals:
         raise Discrepancy('format.decimals', 'str(decimals=%d) produced %r' % (decimals, text), case)
-    if units != n:
+    noisy = units != n
+    if noisy:
         if abs(units - n) * 2 < 1:
             ctx.klass('format.subunit_noise.' + (den or 'coin'))
         else:
-            kf = F_FLOAT if (abs(units - n) < 2 and n >= 10 ** 15 and den != '') else None
+            kf = F_FMT if (abs(units - n) <= 1 and n >= 10 ** 15 and den != '') else None
             ctx.disc('format.inexact.' + (den or 'coin'),
                      'from_satoshi(%d, %r).str(%r, decimals=%r) = %r which denotes %s smallest units' %
                      (n, net, den_arg, decimals, text, float(units)), case, kf=kf)
@@ -235,8 +237,13 @@ def check_format(ctx, case):
     if type(back) is not int:
         raise Discrepancy('roundtrip.type', 'value_to_satoshi(%r) = %r, not int' % (text, back), case)
     if back != n:
-        kf = _kf_off_by_one(n, back, den) or _kf_tera(parts[0], den, code, back)
-        ctx.disc('roundtrip.' + (den or 'coin'), 'value_to_satoshi(from_satoshi(%d, %r).str(%r, decimals=%r) = %r) '
+        kf = _kf_off_by_one(n, back, den)
+        if kf and noisy:
+            # the library's text itself carries sub-unit float noise (str() divides floats); with an exact text
+            # the miss is the parser's (F_FLOAT)
+            kf = F_FMT
+        kf = kf or _kf_tera(parts[0], den, code, back)
+        ctx.disc('roundtrip.' + ('noisy_text.' if noisy else '') + (den or 'coin'), 'value_to_satoshi(from_satoshi(%d, %r).str(%r, decimals=%r) = %r) '
                  '= %d' % (n, net, den_arg, decimals, text, back), case, kf=kf)
 
 
@@ -271,7 +278,9 @@ def check_numeric(ctx, case):
         raise Discrepancy('numeric.type', '%s n=%d den=%r: value_sat=%r is not int' % (form, n, den_arg, got), case)
     if got != n:
         ctx.disc('numeric.inexact.%s.%s' % (form, den or 'coin'), '%s with n=%d den=%r network=%r: value_sat=%d' %
-                 (form, n, den_arg, net, got), case, kf=_kf_off_by_one(n, got, den) if form != 'from_sat' else None)
+                 (form, n, den_arg, net, got), case,
+                 kf={'value_num': _kf_off_by_one(n, got, den),
+                     'from_sat_den': F_FMT if _kf_off_by_one(n, got, den) else None}.get(form))
         return
     if idx != n or int.from_bytes(as_bytes, 'little') != n or len(as_bytes) != 8:
         raise Discrepancy('numeric.bytes', '%s n=%d: to_bytes=%s __index__=%r' % (form, n, as_bytes.hex(), idx), case)
@@ -455,6 +464,12 @@ def probes(ctx):
              "value_to_satoshi('20457139967440.33 µBTC') = 2045713996744032: amounts >= 10^15 smallest units are off "
              "by one unit for 0.1-3 % of values in every denominator whose float constant is inexact (text is scaled "
              "as float(text) * den / 1e-8)"),
+            (F_FMT, {'kind': 'numeric', 'n': 2099999999999731, 'den': 'c', 'net': 'bitcoin', 'form': 'from_sat_den',
+                     'den_as': 'symbol'},
+             "Value.from_satoshi(2099999999999731, denominator='c').value_sat = 2099999999999730; likewise "
+             "from_satoshi(n).str(den, decimals) prints sub-unit float noise for n/msat/µsat denominators or surplus "
+             "decimals (e.g. '2099999999934465280 msatLTC' for 2099999999934465 units) which parses back one unit off; "
+             "amounts >= 10^15 only"),
             (F_DA, {'kind': 'parse', 'n': 1000000000, 'den': 'da', 'code': 'BTC', 'api': 'v2s'},
              "Value('1 daBTC') raises 'Currency symbol not recognised' (prefix 'd' is matched before 'da'), so the "
              "text produced by str('da') cannot be parsed back"),
